@@ -167,7 +167,7 @@ def posted(fs, f, sinks=CLAUSE_SINKS, env=None, alias=True):
     env = env or LocalEnv(f)
     saved = (getattr(env, 'alias', False), getattr(env, 'no_alias', ()))
     if alias:
-        env.alias, env.no_alias = True, _mutated_locals(f)
+        env.alias, env.no_alias = True, (getattr(env, 'no_alias', None) or _mutated_locals(f))
     try:
         vb = VecBuilder(f, env)
         out = []
